@@ -5,13 +5,14 @@ MC : MC_SoftDecoding - Wagner's rule equals brute-force soft ML on every tie-fre
 TV : Clean (BP exact/Taylor, min-sum plain/scaled/normalised/offset, Wagner, soft Reed-Muller on noise-free LLRs of every codeword, several
      magnitudes and iteration counts, output shape), Wagner (arbitrary integer vectors vs brute-force soft ML in TLC), BpExact (tree-structured
      parity checks, inputs on the ln 2 lattice: exp(LLR_out) vs the exact rational posterior), MinSum (soft output vs the spec's flooding
-     min-sum with rational alpha and integer beta; the sub-offset corner is excluded by the spec) and Rescale events, judged by Trace_Soft.
+     min-sum with rational alpha and integer beta; including the sub-offset corner, where a message weaker than the offset becomes zero) and Rescale events, judged by Trace_Soft.
 """
 import itertools
 import math
 import random
 
 import torch
+from .core import sint
 
 from . import fec, tlc, tv
 
@@ -49,7 +50,7 @@ def sparse_H(rng, n, r):
 
 
 def bits(t):
-    return [int(round(float(v))) if float(v) in (0.0, 1.0) else -1 for v in t.reshape(-1).tolist()]
+    return [sint(float(v)) if float(v) in (0.0, 1.0) else -1 for v in t.reshape(-1).tolist()]
 
 
 def run(run):
@@ -111,9 +112,7 @@ def run(run):
                     continue
                 alpha = 0.75 if (opt.get("normalized") or opt.get("scaling_factor") == 0.75) else 1.0
                 beta = 0.2 if opt.get("normalized") else opt.get("offset", 0.0)
-                for mag in ((0.5, 8.0) if quick else (0.5, 2.0, 8.0, 50.0)):
-                    if beta and alpha * mag <= beta * 1.01:
-                        continue        # sub-offset corner: not defined by the property
+                for mag in ((0.05, 0.5, 8.0) if quick else (0.001, 0.05, 0.5, 2.0, 8.0, 50.0)):
                     Y = (1 - 2 * Cw) * mag
                     try:
                         O = dec(Y)
@@ -190,8 +189,8 @@ def run(run):
                     try:
                         res = dec(y, return_soft=True)
                         soft = res[1].reshape(-1).double()
-                        p12 = [int(round(min(math.exp(float(v)), 5e5) * 4096)) for v in soft]
-                        q12 = [int(round(min(math.exp(-float(v)), 5e5) * 4096)) for v in soft]
+                        p12 = [sint(min(math.exp(float(v)), 5e5) * 4096) for v in soft]
+                        q12 = [sint(min(math.exp(-float(v)), 5e5) * 4096) for v in soft]
                         raised = False
                     except Exception as ex:
                         p12 = q12 = [0] * n
@@ -211,7 +210,7 @@ def run(run):
                     y = [rng.choice([-1, 1]) * rng.randint(2, 9) for _ in range(n)]
                     try:
                         res = dec(torch.tensor([y], dtype=torch.float32), return_soft=True)
-                        soft = [int(round(float(v) * U)) for v in res[1].reshape(-1)]
+                        soft = [sint(float(v) * U) for v in res[1].reshape(-1)]
                         hard1 = bits(res[0])
                         raised = False
                     except Exception as ex:
@@ -223,7 +222,7 @@ def run(run):
                         c = rng.choice([2, 3, 10])
                         try:
                             res2 = dec(torch.tensor([[v * c for v in y]], dtype=torch.float32), return_soft=True)
-                            add({"ev": "Rescale", "c": c, "soft1": soft, "soft2": [int(round(float(v) * U)) for v in res2[1].reshape(-1)], "hard1": hard1,
+                            add({"ev": "Rescale", "c": c, "soft1": soft, "soft2": [sint(float(v) * U) for v in res2[1].reshape(-1)], "hard1": hard1,
                                  "hard2": bits(res2[0]), "raised": False}, "MinSumLDPCDecoder", dict(opt, iters=iters))
                         except Exception:
                             add({"ev": "Rescale", "c": c, "soft1": soft, "soft2": soft, "hard1": hard1, "hard2": [], "raised": True}, "MinSumLDPCDecoder", dict(opt, iters=iters))
@@ -232,7 +231,7 @@ def run(run):
                                 cost=(lambda e: (2 ** max(0, len(e["y"]) - 5) if e["ev"] == "Wagner" else (4 if e["ev"] in ("BpExact", "MinSum") else 1))))
     pr = getattr(run, "last_prints", [])
     run.extra["wagner_inputs_excluded_as_ties"] = len([p for p in pr if isinstance(p, list) and p and p[0] == "TIE"])
-    run.extra["min_sum_inputs_in_sub_offset_corner"] = len([p for p in pr if isinstance(p, list) and p and p[0] == "SUBOFFSET"])
+    run.extra["min_sum_inputs_in_sub_offset_corner_judged_too"] = len([p for p in pr if isinstance(p, list) and p and p[0] == "SUBOFFSET"])
     seen = set()
     for (t, line, clause) in mism:
         e = evs[line - 1]
